@@ -99,7 +99,36 @@ def _graph(L, S):
     return g
 
 
-# warm-up outside tracing (networkx compiles decorated functions with exec on first use)
+# warm-up outside tracing (networkx compiles decorated functions with exec on first use).  The search functions are called
+# directly as well: a changed route() may not reach them on the warm-up query but reach them later under tracing.
+def _warm_networkx():
+    g = nx.MultiDiGraph()
+    g.add_edge(1, 2, travel_time=1.0, length=1.0)
+    g.add_edge(2, 3, travel_time=1.0, length=1.0)
+    g.add_edge(3, 1, travel_time=1.0, length=1.0)
+    calls = (
+        lambda: nx.astar_path(g, 1, 3, heuristic=lambda u, v: 0, weight="travel_time"),
+        lambda: nx.astar_path_length(g, 1, 3, heuristic=lambda u, v: 0, weight="travel_time"),
+        lambda: nx.shortest_path(g, 1, 3, weight="travel_time"),
+        lambda: nx.shortest_path_length(g, 1, 3, weight="travel_time"),
+        lambda: nx.dijkstra_path(g, 1, 3, weight="travel_time"),
+        lambda: nx.dijkstra_path_length(g, 1, 3, weight="travel_time"),
+        lambda: nx.single_source_dijkstra(g, 1, 3, weight="travel_time"),
+        lambda: nx.bidirectional_dijkstra(g, 1, 3, weight="travel_time"),
+        lambda: nx.bellman_ford_path(g, 1, 3, weight="travel_time"),
+        lambda: nx.has_path(g, 1, 3),
+        lambda: list(nx.all_simple_paths(g, 1, 3)),
+        lambda: nx.is_strongly_connected(g),
+        lambda: list(nx.strongly_connected_components(g)),
+    )
+    for c in calls:
+        try:
+            c()
+        except Exception:
+            pass
+
+
+_warm_networkx()
 _net0 = OSMRoadNetwork(_graph(BASE_L, {e: BASE_S for e in EDGES}))
 _net0.route(EntityPosition(O_LINK, _net0.link_helper.links[O_LINK].start), EntityPosition(D_LINK, _net0.link_helper.links[D_LINK].end))
 _O_END = int(O_LINK.split("-")[1])
@@ -195,8 +224,9 @@ def h_fastest(l0: int, l1: int, l2: int, l3: int, k: int, w: int) -> bool:
     return t <= best + 1e-9 * best
 
 
-def h_connected(l0: int, l1: int, l2: int, l3: int, k: int, oi: int, di: int) -> bool:
+def h_connected(l0: int, l1: int, l2: int, l3: int, k: int, oi: int, di: int, w: bool) -> bool:
     """
+    w: an earlier query on the same network instance between the SAME two links but from / to other cells of them
     pre: 0 <= k <= 5 and 0 <= oi <= 2 and 0 <= di <= 2
     post: _
     """
@@ -208,8 +238,10 @@ def h_connected(l0: int, l1: int, l2: int, l3: int, k: int, oi: int, di: int) ->
     d = _pos(_D_LINE, D_LINK, di)
     if o is None or d is None:
         return True
+    if w:
+        net.route(_pos(_O_LINE, O_LINK, (oi + 1) % 3), _pos(_D_LINE, D_LINK, (di + 2) % 3))
     route = net.route(o, d)  # ---- real code
-    note("connected", O_LINK, D_LINK, len(route), oi, di)
+    note("connected", O_LINK, D_LINK, len(route), oi, di, "warm" if w else "fresh")
     if o == d:
         return len(route) == 0
     if len(route) == 0:
